@@ -12,7 +12,9 @@ The semantics are the ones the executor implements (engine/executor):
   columns in name order, null first (`SortedHeapItems.Less`); a descending statement uses the
   reversed order;
 * `first` / `last` take the smallest / largest time; among equal times the larger value wins
-  (`FirstMerge`, `LastMerge`), for `first` of a boolean the smaller (`BooleanFirstMerge`);
+  (`FirstMerge`, `LastMerge`), for `first` of a boolean the smaller (`BooleanFirstMerge`; the
+  tag-set cursor and the statistics shortcut keep the larger one: `Fn.firstC`, finding
+  first-bool-ties - the driver prints a cell on which the two rules disagree as `~`);
   `min` / `max` take the earliest point among equal values (`MinMerge`, `MaxMerge`);
 * buckets are `[k*w, (k+1)*w)` in epoch time; an aggregate statement with buckets returns every
   bucket from the one holding the lower bound to the one holding the upper bound for each group
@@ -52,6 +54,11 @@ def Row.cell (r : Row) (c : Col) : Option Int := (r.cs.getD c.idx none)
 
 inductive Fn where
   | count | sum | mean | min | max | first | last
+  /-- `first` as the tag-set cursor (`record.UpdateBooleanFirst`) and the statistics shortcut
+  (`immutable.firstMeta`) compute it: among equal times the larger value wins, for a boolean
+  too. Not a function of the language: the second rule the code has for `first` of a boolean,
+  used by the driver to tell which answers depend on the path (finding `first-bool-ties`). -/
+  | firstC
 deriving DecidableEq, Repr, Inhabited
 
 inductive GroupBy where
@@ -207,6 +214,7 @@ def Fn.better (f : Fn) (isBool : Bool) (a b : Pt) : Bool :=
   | .last =>
     if isBool then OG.Gen.C08.boolLastTakes false a.1 b.1 (a.2 != 0) (b.2 != 0)
     else OG.Gen.C08.lastTakes false a.1 b.1 a.2 b.2
+  | .firstC => OG.Gen.C08.firstTakes false a.1 b.1 a.2 b.2
   | _ => false
 
 def pick (f : Fn) (isBool : Bool) (a b : Pt) : Pt := if f.better isBool a b then b else a
@@ -232,7 +240,7 @@ def applyCall (f : Fn) (c : Col) (ps : List Pt) : Val × Option Int :=
       | none => (.null, none)
 
 def isSelector : Fn → Bool
-  | .min | .max | .first | .last => true
+  | .min | .max | .first | .last | .firstC => true
   | _ => false
 
 /-- start of the bucket of width `w` (seconds, epoch aligned) holding relative second `t`. -/
